@@ -3,11 +3,13 @@
 
   Only property theorems live here; helper lemmas are in `Fca/Lemmas/{Layout,Mover}`.
   Observables: `calc_levels` (model `Layout.calcLevels`), the layouts' coordinates (model
-  `Layout.fcartLayout`, verified checker `Layout.holdsLayout` for any layout incl. multipartite),
+  `Layout.fcartLayout`, `Layout.mpLayout` = fcapy's `multipartite_layout` including networkx's
+  `multipartite_layout`/`rescale_layout`; verified checker `Layout.holdsLayout` for any layout),
   and `Mover.pos` after each operation (model `Mover.getPos`, which is `peerCoord`/`levelCoord`
   per node placed on the x/y axes according to the orientation: `mover_pos_of_coords`).
 -/
 import Fca.Model.Layout
+import Fca.Model.LayoutMP
 import Fca.Model.Mover
 import Fca.Lemmas.Mover
 import Fca.Lemmas.MoverShift
@@ -15,6 +17,7 @@ import Fca.Lemmas.MoverSortedOps
 import Fca.Lemmas.Layout
 import Fca.Lemmas.Fcart
 import Fca.Lemmas.LevelsTotal
+import Fca.Lemmas.LayoutMP
 namespace Fca.C19
 open Fca.Layout Fca.Mover
 
@@ -40,9 +43,11 @@ theorem holdsLayout_sound (parents : List (List Nat)) (lv : List Nat) (pos : Lis
   exact ⟨⟨h1, h2⟩, h3, fun i j hi ha => (anc_lower h4 ha hi).2,
     isLevel_of_good (fun i hi p hp => (h4 i hi p hp).1) h5⟩
 
-/-- Multipartite layout (and any other layout): networkx's placement is not modelled; what is proved
-    is that every output the run accepts through the checker is total, injective and order-respecting.
-    PARTIAL: no theorem says that `multipartite_layout` always produces an accepted output. -/
+/-- Any layout (this is what judges the IMPLEMENTATION's actual multipartite output on every run): every
+    output the run accepts through the checker is total, injective and order-respecting.
+    PARTIAL as a statement about `multipartite_layout`: it does not say that the function always produces an
+    accepted output — that is `multipartite_layout_exact` below, for the code-shaped model of the function
+    (fcapy's wrapper + networkx 3.6.x `multipartite_layout`/`rescale_layout`). -/
 theorem multipartite_layout_partial (parents : List (List Nat)) (lv : List Nat) (pos : List (Rat × Rat))
     (h : holdsLayout parents lv pos = true) :
     pos.length = parents.length ∧
@@ -119,6 +124,41 @@ theorem layout_order_respecting (P : PosetData) (hP : WFP2 P) (hn : P.n ≠ 0) (
   obtain ⟨pos, cl, ld, h, _, _, _, h4, _⟩ := fcart_layout_ok P hP hn c dpth
   exact ⟨pos, h, h4⟩
 
+/-- `multipartite_layout` (model `mpLayout`: `calc_levels` → node attribute `level` → networkx
+    `multipartite_layout(G, subset_key='level', align='horizontal')` with `rescale_layout` → `[p[0], -p[1]]`)
+    satisfies the whole layout property on every non-empty finite poset, for EVERY iteration order `ord`
+    of the Python sets holding the members of a layer: every element gets a position; positions are pairwise
+    distinct (members of different layers differ in `y`, members of one layer in `x`: both coordinates are
+    affine in (slot, layer index) with the positive factor `1/lim`, or `1` when `lim = 0`, i.e. a single
+    node at `(0, 0)`); every element is strictly lower than each of its ancestors (`y = −(i − c)/lim` is
+    strictly decreasing in the layer index `i`, layers are sorted by level, an ancestor has a strictly
+    smaller level); levels are longest-chain lengths. -/
+theorem multipartite_layout_exact (P : PosetData) (hP : WFP2 P) (hn : P.n ≠ 0)
+    (ord : List Nat → List Nat) (hord : ∀ g, (ord g).Perm g) :
+    ∃ l ld, calcLevels P (defaultFuel P) = .ok (l, ld) ∧ LayoutOK P.parents l (mpLayout P l ord) := by
+  obtain ⟨l, ld, hc⟩ := calcLevels_total hP hn
+  obtain ⟨h1, _, h3⟩ := calcLevels_good hP.toWFP hc
+  obtain ⟨hinj, hlt⟩ := mpNode_facts l ord hord
+  have hnn : P.n = P.parents.length := rfl
+  refine ⟨l, ld, hc, ⟨by simp only [mpLayout, List.length_map, List.length_range, hnn], by rw [h1, hnn]⟩, ?_, ?_,
+    isLevel_of_good hP.par_lt h3⟩
+  · rw [mpLayout, List.Nodup, List.pairwise_map]
+    refine List.Pairwise.imp_of_mem ?_ (List.nodup_range (n := P.n))
+    intro a b ha hb hab
+    exact hinj a b (by rw [h1]; exact List.mem_range.mp ha) (by rw [h1]; exact List.mem_range.mp hb) hab
+  · intro i j hi ha
+    obtain ⟨hj, hl⟩ := level_lt_of_anc hP.par_lt h3 ha hi
+    rw [yOf_mpLayout P l ord i hi, yOf_mpLayout P l ord j hj]
+    exact hlt i j (by rw [h1]; exact hi) (by rw [h1]; exact hj) hl
+
+/-- the same for the whole function (`calc_levels` included), in the shape of `fcart_layout_ok` -/
+theorem multipartite_layout_ok (P : PosetData) (hP : WFP2 P) (hn : P.n ≠ 0)
+    (ord : List Nat → List Nat) (hord : ∀ g, (ord g).Perm g) :
+    ∃ pos cl ld, multipartiteLayout P (defaultFuel P) ord = .ok pos ∧
+      calcLevels P (defaultFuel P) = .ok (cl, ld) ∧ LayoutOK P.parents cl pos := by
+  obtain ⟨l, ld, hc, hok⟩ := multipartite_layout_exact P hP hn ord hord
+  exact ⟨_, l, ld, by simp only [multipartiteLayout, hc], hc, hok⟩
+
 private def exP : PosetData := ⟨[[], [0], [0], [1, 2], [0]], [[1, 2, 4], [3], [3], [], []], [0]⟩
 
 /-- the diamond with a pendant meets all hypotheses; the models return the expected values on it and the
@@ -132,6 +172,20 @@ example : WFP2 exP ∧ exP.n ≠ 0 ∧
      | _, _ => false) = true := by
   refine ⟨⟨⟨by decide, by decide, by decide⟩, by decide, by decide, by decide, by decide, by decide,
     ⟨fun i => [0, 1, 1, 2, 1].getD i 0, by decide⟩⟩, by decide, by decide +kernel, by decide +kernel⟩
+
+/-- on the same poset the multipartite model, with the layer `{1, 2, 4}` iterated as `4, 1, 2`, returns the
+    expected coordinates (raw grid `(level − 1, slot − (h−1)/2)`, level mean `1`, `lim = 1`), which the checker
+    accepts; the order parameter used is a permutation of every argument -/
+example :
+    let ord : List Nat → List Nat := fun g => if g = [1, 2, 4] then [4, 1, 2] else g
+    (∀ g, (ord g).Perm g) ∧
+    mpLayout exP [0, 1, 1, 2, 1] ord = [(0, 1), (0, 0), (1, 0), (0, -1), (-1, 0)] ∧
+    holdsLayout exP.parents [0, 1, 1, 2, 1] (mpLayout exP [0, 1, 1, 2, 1] ord) = true := by
+  refine ⟨?_, by decide +kernel, by decide +kernel⟩
+  intro g
+  by_cases h : g = [1, 2, 4]
+  · subst h; decide
+  · simp only [h, ↓reduceIte]; exact List.Perm.refl _
 
 /-! ## Mover -/
 
